@@ -19,6 +19,7 @@ package crash
 import (
 	"encoding/json"
 	"fmt"
+	"math/big"
 	"os"
 	"path/filepath"
 	"regexp"
@@ -569,7 +570,8 @@ func scaled(n int) int {
 
 const ruleText = "cases are executed in a crash-isolating worker that owns a solo ledger (genesis + committed prefix: funded accounts, 3 NeoVM and 3 EVM contracts). " +
 	"(a) NeoVM programs from a grammar (typed and mistyped SYSCALLs of every service name, value builders incl. nested/deep/self-referential containers with the back edge at a generated position, consumers Serialize/Notify/Native.Invoke/EQUAL/..., APPCALL/DCALL/CALL, bounded loops and jumps, framed opcode soup, raw and mutated bytes) run as a signed transaction through ExecuteBlock AND through PreExecuteContract; " +
-	"(b) a generated VALID history of native calls (ONT IDs with keys/controllers/recovery/attributes, approvals, auth roles, governance candidates) applied in a sandbox CacheDB and, as signed NeoVM transactions of one block, through ExecuteBlock, followed by ONE hostile call (contract and method from the method tables enumerated at run time; arguments shaped/mutated/generic atoms/raw bytes; every count, index and amount from a hostile pool 0,1,len-1,len,len+1,2^31,2^32-1,2^32,2^63,2^64-1,2^64,-1); " +
+	"(b) a generated VALID history of native calls (ONT IDs with keys/controllers/recovery/attributes, approvals, auth roles, governance candidates) applied in a sandbox CacheDB and, as signed NeoVM transactions of one block, through ExecuteBlock, followed by ONE hostile call (contract and method from the method tables enumerated at run time; arguments shaped/mutated/generic atoms/raw bytes; every count, index and amount from a hostile pool 0,1,len-1,len,len+1,2^31,2^32-1,2^32,2^63,2^64-1,2^64,-1; the numbers of ont/ong/gov/lockproxy/ontfs/ccm calls and every transfer-state / position-list amount mostly from the boundary amount pool: 0, 1, 10^9 and k*10^9 (+-1) for k = 2^32, 2^63, 2^64-1, 2^64, 2^64+1, 2^96, 2^128-1, 2^196, 2^n (+-1) for n = 63, 64, 127, 128, 255, 256, the total supplies 10^18 and 10^27 (+-1), the largest whole amount below 2^256, and negative forms); " +
+	"(b2) amount sweep: for ONT and ONG every method with an amount (transfer, transferV2, approve, approveV2, transferFrom after an approval of the same amount, transferFromV2 likewise) x every value of that pool, from funded accounts with all witnesses present, plus the two-step sequences approve(V2)(W + B), transferFrom(V2)(B) for every positive W of the pool and B in {1, 5*10^8, 10^9-1} so that W is what remains as allowance - sandbox call, and for the approvals, a third of the sequences and a quarter of the rest also signed NeoVM transactions in one block and pre-execution (non-trivial = the method's handler was entered); " +
 	"(c) EVM bytecode as creation code, as installed runtime code called in the same block, or calldata to precompiles/native addresses/prefix contracts, through ExecuteBlock, PreExecuteContract(EIP-155 tx) and PreExecuteEip155Tx; (d) transactions offered to the tx pool intake; " +
 	"(e) NeoVM amplification loops: a leaf container (struct/array/map with 0,1,2,3,16,255,1023 or 1024 primitive items) and 1..48 rounds (uniform; unrolled or as a backward JMP loop) that each build a new node (struct/array/map with 0..1024 primitive filler slots) holding 1-4 copies of / references to the previous value in its first, middle or last slots by APPEND, SETITEM, PACK or by appending a struct to itself, older values dropped or kept on the stack, optionally 1..32 further APPENDs of the result to a fresh array, the final value returned / dropped / serialized / notified - run first on a bare executor driven exactly like NeoVmService.Invoke that counts the live VM items (stack slots + distinct containers + their slots) after every container-allocating opcode, then through ExecuteBlock and PreExecuteContract with the same counter probing the node's own executor on entry to every service call (it must agree with the meter); " +
 	"(f) cross-contract loops: an endless (L: body; JMP L) or counted (1..150000 iterations) loop whose body is 1-3 of: static or dynamic (address from the stack) APPCALL into the contracts committed in the worker's ledger prefix - echo (NOP), time (one service call), chain (APPCALLs time), loop (16 service calls in its own bounded loop), recur (calls itself until the engine limit), a missing contract - a service call in the caller, a NOP (TAILCALL is not implemented by this executor; DCALL stays inside one contract); run as a transaction through ExecuteBlock (gas limit 20000..500000) and as a pre-execution request. " +
@@ -872,6 +874,103 @@ func TestC12_CrossContractLoops(t *testing.T) {
 			t.Fatalf("C12 violated by cross-contract loop program %x (shape %+v, gas limit %d, gas price %d): %s", code, sp, c.GasLimit, c.GasPrice, viol)
 		}
 	})
+}
+
+// TestC12_TokenAmountSweep: for ONT and ONG, every method that takes an amount (transfer, transferV2, approve,
+// approveV2, transferFrom, transferFromV2) x every value of boundaryAmounts, with funded accounts and the
+// witnesses the method asks for, so that the argument checks are passed and the balance / allowance
+// arithmetic and storage encoding are reached; plus two-step sequences approve(V2)(W + B) then
+// transferFrom(V2)(B) that leave every W of the pool as the remaining allowance. Sandbox call, signed NeoVM
+// transactions in one block and pre-execution. Deterministic enumeration (partitioned by shard).
+func TestC12_TokenAmountSweep(t *testing.T) {
+	r := newRunner(t)
+	defer r.close()
+	ev := r.ev
+	ev.Rule(ruleText)
+	z := zoo()
+	from, spender, to := z[1].Address[:], z[2].Address[:], z[3].Address[:]
+	type sweepCase struct {
+		c    wcase
+		what string
+	}
+	var cases []sweepCase
+	mk := func(chex, method string, args []byte, hist []natCall, what string) {
+		call := natCall{Contract: chex, Method: method, Args: args, Signers: allSigners}
+		cases = append(cases, sweepCase{wcase{Kind: "native", History: hist, Call: &call, Height: 100}, what})
+	}
+	smalls := []*big.Int{big.NewInt(1), big.NewInt(999999999), big.NewInt(500000000)}
+	for _, cname := range []string{"ont", "ong"} {
+		chex := natAddrHex(cname)
+		for _, v2 := range []string{"", "V2"} {
+			for _, a := range boundaryAmounts {
+				mk(chex, "transfer"+v2, (&enc{}).vu(1).vb(from).vb(to).vbig(a).b, nil, "transfer")
+				mk(chex, "approve"+v2, (&enc{}).vb(from).vb(spender).vbig(a).b, nil, "approve")
+				// spend from an allowance of exactly a (when that approval is accepted)
+				ap := natCall{Contract: chex, Method: "approve" + v2, Args: (&enc{}).vb(from).vb(spender).vbig(a).b, Signers: allSigners}
+				mk(chex, "transferFrom"+v2, (&enc{}).vb(spender).vb(from).vb(to).vbig(a).b, []natCall{ap}, "transferFrom-all")
+				if a.Sign() <= 0 {
+					continue
+				}
+				for _, b := range smalls { // approve W + B, spend B: the remaining allowance is the pool value W
+					sum := new(big.Int).Add(a, b)
+					ap2 := natCall{Contract: chex, Method: "approve" + v2, Args: (&enc{}).vb(from).vb(spender).vbig(sum).b, Signers: allSigners}
+					mk(chex, "transferFrom"+v2, (&enc{}).vb(spender).vb(from).vb(to).vbig(b).b, []natCall{ap2}, "transferFrom-remainder")
+				}
+			}
+		}
+	}
+	ev.Floor("amount-sweep:call-succeeded", "amount-sweep:cases", 0.05)
+	ev.Floor("amount-sweep:history-ok", "amount-sweep:history-steps", 0.05)
+	for i, sc := range cases {
+		if i%harn.Shards() != harn.Shard() {
+			continue
+		}
+		c := sc.c
+		c.NoBlock = i%4 != 0 && sc.what != "transferFrom-remainder" && sc.what != "approve" // block + pre-exec route for the approvals, the two-step sequences and a quarter of the rest
+		if sc.what == "transferFrom-remainder" && i%3 != 0 {
+			c.NoBlock = true
+		}
+		v := r.exec(c)
+		viol, kk := r.judge(v)
+		target := "nat:" + contractName(c.Call.Contract) + "." + c.Call.Method
+		hit := false
+		for _, s := range v.rep.Sandbox.Reached {
+			hit = hit || s == target
+		}
+		ev.Case(hit, fmt.Sprintf("amount-sweep %s hist=%d %s", sc.what, len(c.History), c.Call.String()))
+		ev.Class("amount-sweep:cases")
+		ev.Class("amount-sweep:" + contractName(c.Call.Contract) + "." + c.Call.Method)
+		for _, ok := range v.rep.HistOK {
+			ev.Class("amount-sweep:history-steps")
+			if ok {
+				ev.Class("amount-sweep:history-ok")
+			}
+		}
+		switch {
+		case v.timedOut:
+			ev.Class("timeout")
+		case v.died:
+			ev.Class("amount-sweep:died")
+		case v.rep.Sandbox.State == 1:
+			ev.Class("amount-sweep:call-succeeded")
+			ev.Class("amount-sweep:ok:" + sc.what)
+		default:
+			ev.Class("amount-sweep:rejected:" + sc.what)
+		}
+		if !c.NoBlock && !v.timedOut && !v.died {
+			ev.Class("amount-sweep:block:" + shortOutcome(&v.rep.Block))
+		}
+		if kk != "" {
+			ev.Excluded()
+		}
+		if viol != "" {
+			var hb []string
+			for _, h := range c.History {
+				hb = append(hb, h.String())
+			}
+			harn.Violation(t, "C12", c, "native token call %s (amount from the boundary pool; after the history %v) crashes the node: %s", c.Call.String(), hb, viol)
+		}
+	}
 }
 
 // bucket names the first limit that n does not exceed.
